@@ -2,6 +2,7 @@
 mod connect_h;
 mod settings_h;
 mod slices_h;
+mod worker_h;
 
 use std::future::Future;
 use std::task::{Context, Poll, Waker};
